@@ -121,15 +121,22 @@ func runC08(s *Sim) {
 	}
 
 	kind := c08Kinds[t.Choose("target", len(c08Kinds))]
-	behaviour := Pick(t, "behaviour", "drop", "answer", "delay", "misaddress", "disconnect", "silent-peer", "misaddress-spontaneous", "outage")
+	behaviour := Pick(t, "behaviour", "drop", "answer", "delay", "misaddress", "disconnect", "silent-peer", "misaddress-spontaneous", "outage", "silent-peer")
 	position := t.Choose("position", 3) // which reply caused by the target is affected
 	ctxKind := Pick(t, "ctx", "bg", "deadline", "cancel", "cancel-yield")
 	target := c.mkOp(kind)
+	armAtReply := 0
 	if ctxKind == "cancel-yield" {
 		// the caller gives up at an arbitrary instant inside the call (k-th yield point passed by any
-		// library goroutine), not at a quiescence point; the scheduler cancels at cancelAt otherwise
+		// library goroutine), not at a quiescence point; the scheduler cancels at cancelAt otherwise.
+		// The countdown starts with the call, or when the first reply caused by the call is about to
+		// be delivered (so that the caller leaves while its reply is being dispatched)
 		ctxKind = "cancel"
-		target.CancelAtYield = 1 + t.Choose("cancel-yield-k", 80)
+		if t.Bool("cancel-yield-at-reply", 1, 2) {
+			armAtReply = 1 + t.Choose("cancel-yield-k2", 25)
+		} else {
+			target.CancelAtYield = 1 + t.Choose("cancel-yield-k", 80)
+		}
 	}
 	target.CtxKind = ctxKind
 	if ctxKind == "deadline" {
@@ -214,6 +221,16 @@ func runC08(s *Sim) {
 	}
 	spontaneousDone := false
 	for s.Now()-t0 < horizon {
+		if armAtReply > 0 && !target.harvested {
+			for _, ll := range y.aliveLinks() {
+				if ll.PendingB2C() > 0 {
+					s.ArmYieldCancel(target, armAtReply)
+					armAtReply = 0
+					s.Stat("env.cancel-countdown-started-at-reply-delivery")
+					break
+				}
+			}
+		}
 		y.flushLinks()
 		// replies caused since the target started
 		for _, p := range append([]*pend(nil), s.Broker.Pend...) {
